@@ -867,6 +867,16 @@ FIXED_EXPRS = [
     "/a:c/a:l1[- - last() = position() + 0]", "/a:c/a:l1[last() * 1 = position() div 1]", "/a:c/a:l1[string(current()/a:k) = a:k or string(last()) = '0']",
     "/a:c/a:l1[name(self::*[not(position() != last())]) = 'a:l1']", "/a:c/a:l1[count(self::*[string(last()) = '1']) = 1][string(last()) = '7']",
     "/a:c/a:ll[string(.) = string(../a:ll[number(last())])]", "/a:c/a:ll[not(string-length(.) != string-length(../a:ll[position() = last()]))]",
+    # witnesses of the deviations repaired in /repo 61e2388 .. f6e5fb8 (known_findings.d/xpath.json, status fixed)
+    "/a:c/a:lu[a:k=last()]", "/a:c/a:lu[a:k=string(last())]", "/a:c/a:lu[a:k=string(count(preceding-sibling::a:lu))]",
+    "/a:c/a:lu[a:k=count(preceding-sibling::a:lu)]", "count(//node()[self::a:k])", "preceding::*", "following::*", "preceding::a:k", "following::a:k",
+    "(/a:c | /a:c/a:l1)/*", "(/a:c | /a:c/a:l1)/a:k", "(/ | /a:c)/*", "/a:c/attribute::node()", "/a:c/@node()", "//@node()",
+    "false() and //parent::a:x and true()", "true() or //parent::a:x", "true() or //parent::a:x or false()", "true() or count(//ancestor::a:c) or false()",
+    "false() and //preceding-sibling::* and true()", "/a:c[true() or //self::a:x or false()]", "count(/a:c[false() and //self::a:x and true()])",
+    "/a:c/*/text()[true()]", "/a:c/*/text()[1]", "string(/a:c/*/text())", "/a:c/*/text() | /a:c/a:s", "/a:c/*/text()/@*", "//.//@a:ds", "//.//@*", "//@*[1]",
+    "count(//@*)", "count(//@*/@*)", "@*[1]/..", "//*/@*[1]", "/b:bt | //.//a:z | ./descendant::a:c/a:y", "/descendant-or-self::*//a:np/a:z[true()]",
+    "count(//*/*)", "count(//*//*)", "/descendant::*//a:k", "/a:c/a:l1[a:k=../a:ll]", "false() >= /a:c/a:ln", "true() <= /a:c/a:l1/a:v",
+    "substring('12345', 1, 10000000000)", "substring('12345', - 10000000000, 20000000000)", "substring(0.1, /a:zz)", "ceiling(100000000000000000000)",
     "/a:c/s", "/a:c/bx", "/a:c/descendant::s", "/tl", "/c/s", "/a:c/l1/k", "/a:c/a:l1/v", "//s", "//v", "/a:c/b:bc/s", "/c/l1[k='a']",
 ]
 
@@ -883,7 +893,20 @@ KEY_DEP = ["/a:c/a:l1[a:k=a:w]", "/a:c/a:l1[a:k=a:in/a:x]", "/a:c/a:l1[a:k=a:t]"
 def targeted(rng, nodes, g):
     """families aimed at boundaries: aggregates over numeric node-sets, relational operators against values that
     occur in the tree, key predicates whose value depends on the list instance (must NOT be answered by one lookup)"""
-    k = rng.randrange(4)
+    k = rng.randrange(5)
+    if k == 4:
+        # operands of or/and that are only parsed (lazy evaluation) must not influence the result
+        skipped = [g.nodeset(rng.choice([1, 2])) for _ in range(rng.choice([1, 1, 2]))]
+        skipped = [x if rng.random() < 0.6 else ("fn", rng.choice(["count", "boolean", "string", "not"]), [x]) for x in skipped]
+        tail = rng.choice([("fn", "true", []), ("fn", "false", []), g.expr(1, "b"), None])
+        op, first = rng.choice([("or", ("fn", "true", [])), ("and", ("fn", "false", [])), ("or", ("num", "1")),
+                                ("and", ("lit", b""))])
+        e = first
+        for x in skipped:
+            e = (op, e, x)
+        if tail is not None:
+            e = (op, e, tail)
+        return e if rng.random() < 0.7 else ("step", ("step", ("root",), False, "child", ("name", "a", "c"), [e]), False, "child", ("star", None), [])
     if k == 0:
         p = parse(rng.choice(NUM_PATHS))
         return ("fn", rng.choice(["sum", "sum", "count"]), [p])
